@@ -33,7 +33,65 @@ type vhgEvent struct {
 	Handle int    `json:"h"`
 }
 
+// vhgProbe: state of the server's locks seen from inside the gated backend call, by TryLock/TryRLock:
+// 0 free, 1 held for reading only, 2 held for writing, 3 not determined.
+type vhgProbe struct {
+	Rename int `json:"rename"`
+	Node   int `json:"node"`
+	Entry  int `json:"entry"`
+}
+
+func vhgProbeRW(mu *sync.RWMutex) int {
+	if mu.TryLock() {
+		mu.Unlock()
+		return 0
+	}
+	if mu.TryRLock() {
+		mu.RUnlock()
+		return 1
+	}
+	return 2
+}
+
+// vhgFindNode walks the server's path tree without ever blocking.
+func vhgFindNode(srv *Server, path string) *pathNode {
+	pn := srv.pathTree
+	for _, name := range strings.Split(path, "/") {
+		if name == "" {
+			continue
+		}
+		if !pn.childMu.TryRLock() {
+			return nil
+		}
+		next := pn.childNodes[name]
+		pn.childMu.RUnlock()
+		if next == nil {
+			return nil
+		}
+		pn = next
+	}
+	return pn
+}
+
+func (fs *vhgFS) probe(path, entry string) vhgProbe {
+	p := vhgProbe{Rename: 3, Node: 3, Entry: 3}
+	if fs.srv == nil {
+		return p
+	}
+	p.Rename = vhgProbeRW(&fs.srv.renameMu)
+	if pn := vhgFindNode(fs.srv, path); pn != nil {
+		p.Node = vhgProbeRW(&pn.opMu)
+	}
+	if entry != "" {
+		if pn := vhgFindNode(fs.srv, path+"/"+entry); pn != nil {
+			p.Entry = vhgProbeRW(&pn.opMu)
+		}
+	}
+	return p
+}
+
 type vhgGate struct {
+	probe        vhgProbe
 	method, path string
 	handle       int // 0: any
 	taken        bool
@@ -52,6 +110,9 @@ type vhgFS struct {
 	keepLog bool
 	gate    *vhgGate
 	yield   uint32 // != 0: inject scheduling perturbation in every call
+	srv     *Server
+	panicOn *vhgGate // a call matching (method, path) panics, once
+	dirMove bool     // RenameAt may move directories (with everything below)
 	opens   map[int]int
 }
 
@@ -128,6 +189,14 @@ func (f *vhgFile) enter(method, entry string) int {
 	if method == "Open" {
 		fs.opens[f.handle]++
 	}
+	if pg := fs.panicOn; pg != nil && !pg.taken && pg.method == method && pg.path == f.path {
+		pg.taken = true
+		if fs.keepLog {
+			fs.log = append(fs.log, vhgEvent{Seq: len(fs.log), Enter: false, ID: id, Method: method, Node: vhgNode(f.path, f.ino), Handle: f.handle})
+		}
+		fs.mu.Unlock()
+		panic("vhg: injected backend panic in " + method)
+	}
 	fs.cond.Broadcast()
 	g := fs.gate
 	wait := g != nil && !g.taken && g.method == method && g.path == f.path && (g.handle == 0 || g.handle == f.handle)
@@ -136,6 +205,7 @@ func (f *vhgFile) enter(method, entry string) int {
 	}
 	fs.mu.Unlock()
 	if wait {
+		g.probe = fs.probe(f.path, entry)
 		close(g.reached)
 		<-g.release
 	}
@@ -429,7 +499,15 @@ func (f *vhgFile) RenameAt(oldName string, newDir File, newName string) error {
 		return linux.ENOENT
 	}
 	if ino.mode.IsDir() {
-		return linux.EPERM // the harness moves files only
+		if !fs.dirMove || fs.tree[np] != nil {
+			return linux.EPERM // the workloads move files only
+		}
+		for k, v := range fs.tree {
+			if strings.HasPrefix(k, op+"/") {
+				delete(fs.tree, k)
+				fs.tree[np+k[len(op):]] = v
+			}
+		}
 	}
 	if t := fs.tree[np]; t != nil && t.mode.IsDir() {
 		return linux.EISDIR
@@ -505,6 +583,8 @@ func (f *vhgFile) Renamed(newDir File, newName string) {
 type vhgEnv struct {
 	fs      *vhgFS
 	srv     *Server
+	panicOn *vhgGate // a call matching (method, path) panics, once
+	dirMove bool     // RenameAt may move directories (with everything below)
 	clients []*Client
 	conns   []net.Conn
 	done    []chan struct{}
@@ -512,6 +592,7 @@ type vhgEnv struct {
 
 func vhgStart(fs *vhgFS, nconn int) (*vhgEnv, error) {
 	e := &vhgEnv{fs: fs, srv: NewServer(fs)}
+	fs.srv = e.srv
 	for i := 0; i < nconn; i++ {
 		a, b := net.Pipe()
 		d := make(chan struct{})
